@@ -180,7 +180,8 @@ func TestVerifC12Gate(t *testing.T) {
 			}
 		}
 		for _, dirn := range []string{"removed", "added"} {
-			with, without := "other.c12.example\n"+host+"\n", "other.c12.example\n"
+			hostB := "b-" + host
+			with, without := "other.c12.example\n"+host+"\n"+hostB+"\n", "other.c12.example\n"
 			v1, v2 := with, without
 			if dirn == "added" {
 				v1, v2 = without, with
@@ -220,12 +221,45 @@ func TestVerifC12Gate(t *testing.T) {
 			case <-time.After(300 * time.Millisecond):
 				waited = true // the refresh waits for the request: a common lock
 			}
+			// while the refresh is pending (it waits for the parked request), a SECOND request starts: it must
+			// not be able to match against the old list and store its outcome after the refresh either
+			parkedB := false
+			reqBDone := make(chan struct{})
+			if waited {
+				g.mu.Lock()
+				g.armed = true
+				g.mu.Unlock()
+				go func() { ask(f, hostB); close(reqBDone) }()
+				select {
+				case <-g.atGate:
+					parkedB = true
+				case <-time.After(300 * time.Millisecond):
+				}
+			}
 			g.release <- struct{}{}
 			<-reqDone
 			if refDone != nil {
 				if rerr := <-refDone; rerr != nil {
 					t.Fatalf("refresh: %v", rerr)
 				}
+			}
+			if waited {
+				if parkedB {
+					g.release <- struct{}{}
+				} else {
+					select {
+					case <-g.atGate:
+						g.release <- struct{}{}
+					case <-reqBDone:
+					case <-time.After(10 * time.Second):
+						t.Fatalf("the second request neither finished nor reached the cache write")
+					}
+				}
+				<-reqBDone
+				lateB := ask(f, hostB)
+				wantB := ask(c12GNew(t, u, dir, fmt.Sprintf("gb%d%s", round, dirn)), hostB)
+				out.Emit(c12GEvent{Ev: "Gate", What: "hashprefix: second host " + dirn + " by a refresh that was pending when its request started",
+					Q: map[string]string{"host": hostB}, Cached: c12GAbs(lateB), Plain: c12GAbs(wantB), Waited: parkedB})
 			}
 			late := ask(f, host) // starts after Refresh has returned
 			fresh := c12GNew(t, u, dir, fmt.Sprintf("g%d%s", round, dirn))
